@@ -116,7 +116,15 @@ Section C11.
   Qed.
 
   (* Materializing with a path writes the complete file (object fresh or already
-     materialized without a path), and that file loads to the fresh computation. *)
+     materialized without a path), and that file loads to the fresh computation.
+     Premise carried by the model, not by the code: the writing object is a
+     Dataset over the SAME table the later readers use -- the model's live object
+     only ever holds the fresh frame `ft` of that one table.  An object
+     materialized by inheritance over OTHER rows (d = ds[1:3]; d.materialize(path=p)
+     with no file yet) writes its row subset plus the parent's statistics; that
+     path is then a foreign/stale cache, outside C11's quantifier ("a later
+     materialization with that path" of the data the cache was written from), and
+     this theorem says nothing about it. *)
   Theorem materialize_writes_cache : forall h : list (event rows),
     let w := fst (run init h) in
     fs w = None ->
